@@ -219,6 +219,7 @@ impl Template {
     }
 
     pub fn set_inline_script_content(&mut self, module_name: &str, new_content: &str) {
+        let script_count = self.globals.scripts.len();
         let null_location = Position {
             line: 0,
             utf16_col: 0,
@@ -253,6 +254,29 @@ impl Template {
                 content: String::from(new_content),
                 content_location: null_location,
             }),
+        }
+        // script modules are the outermost scopes: a new one moves every other scope up by one
+        if self.globals.scripts.len() > script_count {
+            fn shift_scope_refs(node: &mut Node, from: usize) {
+                match node {
+                    Node::Text(value) => value.shift_scope_refs(from),
+                    Node::Element(elem) => {
+                        elem.for_each_value_mut(|value, _| value.shift_scope_refs(from));
+                        for child in elem.iter_children_mut() {
+                            shift_scope_refs(child, from);
+                        }
+                    }
+                    Node::Comment(..) | Node::UnknownMetaTag(..) => {}
+                }
+            }
+            for sub in self.globals.sub_templates.iter_mut() {
+                for node in sub.content.iter_mut() {
+                    shift_scope_refs(node, script_count);
+                }
+            }
+            for node in self.content.iter_mut() {
+                shift_scope_refs(node, script_count);
+            }
         }
     }
 }
@@ -3135,6 +3159,13 @@ impl TemplateStructure for Value {
 }
 
 impl Value {
+    fn shift_scope_refs(&mut self, from: usize) {
+        if let Self::Dynamic { expression, .. } = self {
+            expression.shift_scope_refs(from);
+        }
+    }
+
+
     pub fn new_empty(pos: Position) -> Self {
         Self::Static {
             value: CompactString::new_inline(""),
